@@ -23,8 +23,18 @@ type c06Case struct {
 const c06Comp = `<section><header><slot name="head"><em>FB-HEAD</em></slot></header><main><slot><em>FB-DEFAULT</em></slot></main></section>`
 
 func c06Cases() []c06Case {
-	d := map[string]any{"name": "NAME", "other": "OTHER", "items": []any{"a", "b", "c"}, "n": 7}
+	d := map[string]any{"name": "NAME", "other": "OTHER", "items": []any{"a", "b", "c"}, "n": 7,
+		"rows": []any{map[string]any{"t": "first", "note": "S"}, map[string]any{"t": "second"}, map[string]any{"t": "third", "note": "ok"}, map[string]any{"t": "fourth", "note": nil}}}
 	cases := []c06Case{
+		// every use of a scoped slot passes ITS OWN props: a prop that is absent or nil in a later use is absent there, whatever an earlier use passed
+		{"scoped-props-per-use-var", map[string]string{"p.vuego": `<template include="c.vuego"><template #row="p">[{{ p.item }}|{{ p.note }}]</template></template>`,
+			"c.vuego": `<ul><li v-for="r in rows"><slot name="row" :item="r.t" :note="r.note"></slot></li></ul>`}, d, "[first|S][second|][third|ok][fourth|]"},
+		{"scoped-props-per-use-destructured", map[string]string{"p.vuego": `<template include="c.vuego"><template v-slot:row="{ item, note }">[{{ item }}|{{ note }}]</template></template>`,
+			"c.vuego": `<ul><li v-for="r in rows"><slot name="row" :item="r.t" :note="r.note"></slot></li></ul>`}, d, "[first|S][second|][third|ok][fourth|]"},
+		{"scoped-props-same-slot-twice", map[string]string{"p.vuego": `<template include="c.vuego"><template #row="p">[{{ p.item }}|{{ p.note }}]</template></template>`,
+			"c.vuego": `<div><slot name="row" :item="'L'" :note="name"></slot><slot name="row" :item="'R'"></slot><slot name="row" :note="n"></slot></div>`}, d, "[L|NAME][R|][|7]"},
+		{"scoped-props-two-instances", map[string]string{"p.vuego": `<template include="c.vuego" k="K1"><template #row="p">[{{ p.item }}|{{ p.note }}]</template></template><template include="c.vuego"><template #row="p">[{{ p.item }}|{{ p.note }}]</template></template>`,
+			"c.vuego": `<div><slot name="row" :item="n" :note="k"></slot></div>`}, d, "[7|K1][7|]"},
 		{"fallback-both", map[string]string{"p.vuego": `<template include="c.vuego"></template>`, "c.vuego": c06Comp}, d, "FB-HEADFB-DEFAULT"},
 		{"default-plain-children-dynamic", map[string]string{"p.vuego": `<template include="c.vuego"><b>D-{{ name }}</b></template>`, "c.vuego": c06Comp}, d, "FB-HEADD-NAME"},
 		{"default-plain-children-bound-attr", map[string]string{"p.vuego": `<template include="c.vuego"><b :title="name">x{{ n }}</b></template>`, "c.vuego": c06Comp}, d, "FB-HEADx7"},
